@@ -27,8 +27,8 @@ and of a trailers block only its `grpc-status` (`Framing.Tr`).  The encoder and 
 statuses and trailers through untouched, so the call model lets the framing model carry these
 projections and puts the full value back where the framing model hands the projection out
 (`trailersOfSt`, `respErr`): a body has exactly one trailers frame and a script at most one status,
-so the projection identifies the value.  `Lemmas/Call.lean` proves that the two views agree
-(`inferStatus_agrees`).
+so the projection identifies the value.  `Lemmas/CallEnd.lean` proves that the two views agree for
+every trailers block and HTTP status (`inferStatus_agrees`, property theorem `C02_status_views_agree`).
 
 Compression is off at both ends (what `server::Grpc::new` / `client::Grpc::new` give); the
 `grpc-encoding` header is still examined, as the code does.  Follows the tree with the `fix:`
